@@ -28,12 +28,18 @@ func IsOptLooking(t string) bool {
 	if rest == "" {
 		return false // "--"
 	}
-	return rest[0] != '-' && rest[0] != '='
+	if rest[0] == '-' {
+		// three or more dashes in front of a name character (`---force`, `----x=1`): a mistyped option, option-looking;
+		// dashes only (`---`) or dashes in front of `=` (`---=x`) stay grey
+		rest = strings.TrimLeft(rest, "-")
+		return rest != "" && rest[0] != '='
+	}
+	return rest[0] != '='
 }
 
-// note: `--=x` and `---x` stay grey (the library reads them as options named `-` / `-x`)
+// note: `--=x`, `---` and `---=x` stay grey (the library reads them as options named `-` / `--`)
 
-// IsGrey - starts with a dash but is neither `--` nor option-looking (`-=x`, `--=x`, `---x`):
+// IsGrey - starts with a dash but is neither `--` nor option-looking (`--=x`, `---`, `---=x`):
 // the statements do not say what these are, semantic generators never produce them.
 func IsGrey(t string) bool {
 	return strings.HasPrefix(t, "-") && t != "--" && !IsOptLooking(t) && !IsPlain(t)
@@ -268,6 +274,7 @@ func GenProg(r *Rng, cfg ProgCfg) *Prog {
 			}
 			if cfg.Valid > 0 && o.Env == "" && (o.Kind == KString || o.Kind == KStringOpt || o.Kind == KStrings) && r.Intn(100) < cfg.Valid {
 				o.Valid = []string{"va" + strconv.Itoa(o.ID), "vb", "v c"}
+				o.ValidSplit = o.ID%3 == 1
 			}
 			if cfg.SetCalled > 0 && r.Intn(100) < cfg.SetCalled {
 				o.SetCalled = true
